@@ -13,7 +13,7 @@ cxx = False
 fixed_lines = 0
 lean_modules = ["Driver.Convert"]
 rule = ("ops: 'c val|vval|consume|argv src tgt value' = one conversion through mpt_data_converter(src) / mpt_value_convert / mpt_iterator_consume / a variadic call (mpt_process_vararg, mpt_value_argv), performed with "
-        "and without destination (tgt may be 'l' = long); 'c null src tgt' = the converter with a NULL source, 'c vnull' = mpt_value_convert of a value without address; 'c ftoken tgt hex' = one token of a text file through the file iterator (mpt_iterator_file) and mpt_iterator_consume; 'c argvreset src v1 v2' = two variadic values read, the iterator reset, read again; 'c skip' / 'c consume-none' = the type-0 and no-value branches of mpt_iterator_consume; "
+        "and without destination (tgt may be 'l' = long); 'c null src tgt' = the converter with a NULL source, 'c vnull' = mpt_value_convert of a value without address; 'c ftoken tgt hex' = one token of a text file through the file iterator (mpt_iterator_file) and mpt_iterator_consume; 'c argvreset src v1 v2' = two variadic values read, the iterator reset, read again; 'c fseq text types' = one file iterator over several words, one mpt_iterator_consume per type letter (a refused element is asked for again); 'c sconv word t1 t2' = one string iterator element, value() taken once, queried as t1 and then converted to t2; 'c skip' / 'c consume-none' = the type-0 and no-value branches of mpt_iterator_consume; "
         "'c sweep src tgt lo hi' = the same for every integer of the range, summarised (verdict "
         "runs, inexact results, query-mode differences); 'c text fn tgt hex' = numeral text through mpt_convert_number / "
         "mpt_convert_string / mpt_c[u]intN (fn cint) / mpt_cchar..mpt_culong (fn cnat); 'c ftext' = the same for f/d/e targets, the model side running its decimal strtod model (oracle word for hex/inf/nan); "
@@ -454,6 +454,24 @@ def _scripts(tier, seed, scale=1):
     fp = _float_points("d")
     ops += ["c argvreset d %s %s" % (fhex("d", fp[k]), fhex("d", fp[(k * 7 + 3) % len(fp)])) for k in range(0, len(fp), 1 if thorough else 9)]
     out += _chunks("argvreset", ops, 12)
+    # ---- state left behind: a refused element of the file iterator asked for again with another type; one element of the
+    # string iterator converted twice through the same value()
+    ops = []
+    for text in ["7 300 9", "7 300", "70000 70000 5", "12", "-1 8", "5 256 -3 4", "200 300 400 70000", "1 99999999999 2", "0x10 0400 9", "255 256 65535 65536"]:
+        for types in ["yyi", "yy", "yyy", "nqx", "ii", "yu", "byn", "ytx", "qqi", "yyqi"]:
+            ops.append("c fseq %s %s" % (gen.hexs(text.encode()), types))
+    out += _chunks("fseq", ops, 10)
+    ops = []
+    for w_ in ["12.5", "1e3", "1e400", "2.25", "4711", "089", "12", "-3.5e2", "255", "256", "0x1p4", "7e0", "65536.5", "1e39", "-0.5"]:
+        for t1 in "cbyiqx" + "fd":
+            for t2 in "dfixyn":
+                if t1 == t2 or (t1 in FLTS and w_.startswith("0x")):
+                    continue          # the model's strtod is decimal; the oracle word belongs to t2
+                al = ftext_oracle(t2, w_.encode()) if t2 in FLTS else []
+                if t2 in FLTS and any(v.startswith("~") for _k, v in al[-1:]):
+                    continue          # inexact in the target: the rounding finding has its own scripts
+                ops.append("c sconv %s %s %s %s" % (gen.hexs(w_.encode()), t1, t2, ",".join("%d:%s" % a for a in al) or "0:-"))
+    out += _chunks("sconv", ops if thorough else ops[::2], 12)
     # ---- stream 3: random
     r = gen.rng(id, tier, seed, "random")
     nrand = (2000 if not thorough else 60000) * scale
